@@ -18,7 +18,7 @@ use crate::pipeline::NodeV;
 use crate::runner::{guarded, CheckResult, EnumJob, Env, Job, JobReport, Outcome, PropJob};
 use crate::util::{rc, splitmix, to_ascii, Seq};
 
-pub const RULE: &str = "case = a valid graph made by cutting a generated sequence set into K-1-overlapping nodes (true flanking extensions, random reverse-complement orientation when unstranded, shuffled order, some dangling extensions), from a handful of nodes up to 2.8*10^5 (quick) / 6*10^5 (thorough) nodes (fixed-size jobs), indexed by finish() inside rayon pools of 1,2,3,4,8 and 16 threads (several repeats), on the global pool, and by finish_serial(); for every node and side the edge lists, extension bytes, node ids and order, and find_link for every terminal k-mer, its reverse complement, 1-mismatch neighbours and random absent k-mers must be identical across all builds and equal to a BTreeMap model ('found as a node end exactly when some node starts or ends with it'). The k-mer type is a harness newtype delegating to the crate's k-mer whose Hash impl records the hashing thread, so the evidence shows how many distinct threads really hashed keys per pool size. Non-trivial = >= 2 hashing threads observed in some build and >= 1 absent-k-mer query.";
+pub const RULE: &str = "case = a valid graph made by cutting a generated sequence set into K-1-overlapping nodes (true flanking extensions, random reverse-complement orientation when unstranded, shuffled order, some dangling extensions), from a handful of nodes up to 2.8*10^5 (quick) / 6*10^5 (thorough) nodes (fixed-size jobs), indexed by finish() inside rayon pools of 1,2,3,4,8 and 16 threads (several repeats), on the global pool, and by finish_serial(); for every node and side the edge lists, extension bytes, node ids and order, and find_link for every terminal k-mer, its reverse complement, 1-mismatch neighbours and random absent k-mers must be identical across all builds and equal to a BTreeMap model ('found as a node end exactly when some node starts or ends with it'); node ids and order are also read through `for node in &graph` and iter_nodes() under next()/nth(n) histories and skip/step_by, with size_hint bracketing the nodes left. The k-mer type is a harness newtype delegating to the crate's k-mer whose Hash impl records the hashing thread, so the evidence shows how many distinct threads really hashed keys per pool size. Non-trivial = >= 2 hashing threads observed in some build and >= 1 absent-k-mer query.";
 pub const TECHNIQUE: &str = "seeded proptest + fixed large cases; differential finish() under sampled rayon pool sizes vs finish_serial() vs BTreeMap model (schedules sampled, not enumerated)";
 
 // ------------------------------------------------------------------------------------------------
@@ -266,6 +266,8 @@ fn run_graph<K: Kmer + Send + Sync>(nodes: &[NodeV<u32>], stranded: bool, seed: 
     let serial = base_of::<K>(nodes, stranded).finish_serial();
     let _ = take_threads();
     let reference = answers(&serial, &probes);
+    // node ids and order as seen through the node iterators (whole pass, partial passes, adaptors)
+    crate::props::c18::check_node_iters(&serial, seed, 2).map_err(|e| format!("finish_serial(): {}", e))?;
     if reference.nodes.len() != nodes.len() {
         return Err("serial build lost nodes".into());
     }
@@ -328,6 +330,7 @@ fn run_graph<K: Kmer + Send + Sync>(nodes: &[NodeV<u32>], stranded: bool, seed: 
             let t = take_threads();
             seen_threads = seen_threads.max(t);
             builds += 1;
+            crate::props::c18::check_node_iters(&g, seed ^ builds as u64, 1).map_err(|e| format!("finish(): {}", e))?;
             let a = answers(&g, &probes);
             if a != reference {
                 // locate the first difference
